@@ -18,6 +18,7 @@ PROPS = {
             "C10_trace_complete_check_sound": [],
             "C10_span_table_vs_vm": [],
             "C10_compile_wellformed_partial": [],
+            "C10_compile_wellformed_partial_strong": [],
             "C10_A23_witness": [],
             "C10_A24_witness": [],
         },
